@@ -418,6 +418,12 @@ class Mp4Atom(ObjectWithFields):
             hdr = Mp4Atom.parse(src, parent, options=options)
             if hdr is None:
                 break
+            if end is not None and (hdr['position'] + hdr['size']) > end:
+                # reading the payload of such a box would allocate a buffer of
+                # the (corrupt) size that the box claims to have
+                raise ValueError(
+                    f'{prefix}box "{hdr["atom_type"]}" at {hdr["position"]} with size ' +
+                    f'{hdr["size"]} extends beyond the end of its parent ({end})')
             try:
                 Box = fourcc.BOXES[hdr['atom_type']]
             except KeyError:
